@@ -344,11 +344,17 @@ def op_ro(self, a, targets):
                     hl = {w: [dec_point(p) for p in pts] for w, pts in a["hl"].items()}
                     self.probe("rendered_with_highlights")
                 im1 = TensorImage(t, style=style, highlights={w: list(p) for w, p in hl.items()}).im
-                im2 = TensorImage(t, style=style, highlights={w: list(p) for w, p in hl.items()}).im
-                self.probe("rendered")
-                if im1.size != im2.size or im1.tobytes() != im2.tobytes():
+                try:
+                    im2 = TensorImage(t, style=style, highlights={w: list(p) for w, p in hl.items()}).im
+                except Exception as e:
+                    im2 = None
                     self.V("C10", "C10.render-twice", "ro_render",
-                           f"two consecutive renderings of slot {a['slot']} ({style}) differ")
+                           f"the first rendering of slot {a['slot']} ({style}, highlights {hl}) succeeded, the second "
+                           f"raised {type(e).__name__}: {str(e)[:60]}")
+                self.probe("rendered")
+                if im2 is not None and (im1.size != im2.size or im1.tobytes() != im2.tobytes()):
+                    self.V("C10", "C10.render-twice", "ro_render",
+                           f"two consecutive renderings of slot {a['slot']} ({style}, highlights {hl}) differ")
             elif kind == "clearstats":
                 if sl.free:
                     raise Skip("free")
